@@ -47,6 +47,20 @@ StatementBuilder::StatementBuilder(Document& doc, std::vector<std::filesystem::p
     this->libpaths.insert(this->libpaths.begin(), "");
 }
 
+/**
+ * True if the user data of the symbol is a variable_t (cf. the dispatch in document.cpp): templates, instances,
+ * processes, locations and functions also carry user data, but of other types.
+ */
+static bool holds_variable(const symbol_t& symbol)
+{
+    if (symbol.get_data() == nullptr)
+        return false;
+    const type_t type = symbol.get_type().strip_array();
+    return type.is(Constants::INT) || type.is(Constants::STRING) || type.is(Constants::DOUBLE) ||
+           type.is(Constants::BOOL) || type.is(Constants::CLOCK) || type.is(Constants::CHANNEL) ||
+           type.is(Constants::SCALAR) || type.get_kind() == Constants::RECORD;
+}
+
 void StatementBuilder::collectDependencies(std::set<symbol_t>& dependencies, expression_t expr)
 {
     std::set<symbol_t> symbols;
@@ -56,14 +70,9 @@ void StatementBuilder::collectDependencies(std::set<symbol_t>& dependencies, exp
         symbols.erase(s);
         if (dependencies.find(s) == dependencies.end()) {
             dependencies.insert(s);
-            if (auto d = s.get_data(); d) {
-                if (auto t = s.get_type(); !(t.is_function() || t.is_function_external())) {
-                    // assume is its variable, which is not always true
-                    variable_t* v = static_cast<variable_t*>(d);
-                    v->init.collect_possible_reads(symbols);
-                } else {
-                    // TODO; fixme.
-                }
+            if (holds_variable(s)) {
+                auto* v = static_cast<variable_t*>(s.get_data());
+                v->init.collect_possible_reads(symbols);
             }
         }
     }
